@@ -35,6 +35,14 @@ CHECKS["C20"] = {
     "design_ref": "DESIGN.md 2.4, 3 (C20)",
 }
 
+CHECKS["C06"] = {
+    "engine": "H",
+    "technique": "deterministic simulation: seeded operation/fault histories on groups sharing member objects vs. numpy row-tuple model, ddmin-minimised replay",
+    "text": "Seeded search over histories (insert/replace/update/delete/pop/share/copy/index/sortby, mis-shaped insertions injected as faults; ints, negative ints, stepped/empty slices, boolean masks and integer arrays as ndarray/Array/list, permutations) on two Datagroup slots; every value is a unique (member,row) stamp and after every step every member of every group must equal the numpy-indexed model, with one shape per group, units and names preserved. Sampling, not proof.",
+    "note": "Trusted: numpy indexing as the reference selection semantics; stamps are exactly representable in all four dtypes.",
+    "design_ref": "DESIGN.md 2.4, 3 (C06)",
+}
+
 PENDING_REASON = "check not built yet in this snapshot of /verif (planned and applicable, see DESIGN.md section 3); not claimed until its check exists"
 ALL = ["C%02d" % i for i in range(1, 21)]
 
